@@ -253,7 +253,89 @@ func doubleClose() {
 	sched.SetOutcome("ok")
 }
 
+// ---- unbuffered channels: rendezvous ----
+
+func usend(c chan int, v int) {
+	tok := sched.SendPt(c)
+	c <- v
+	sched.PostSendT(tok)
+}
+
+// two senders, one receiver taking both values: every order of the two values, nobody left behind
+func unbufTwoSenders() {
+	c := make(chan int)
+	var wg sync.WaitGroup
+	wg.Add(2)
+	sched.Go(func() { usend(c, 1); wg.Done() })
+	sched.Go(func() { usend(c, 2); wg.Done() })
+	a := sched.RecvV(c)
+	b := sched.RecvV(c)
+	wg.Wait()
+	sched.WaitQuiescent()
+	sched.SetOutcome(fmt.Sprintf("%d%d left=%d", a, b, len(sched.LiveNonServer())))
+}
+
+// the doWithDeadline shape: a worker reports through a channel, the caller waits for it or for a timer.
+// With a one-slot channel the worker always ends; with an unbuffered one it is left behind whenever the timer wins.
+func deadlineShape(buf int, early bool) func() {
+	return func() {
+		ret := make(chan int, buf)
+		gate := make(chan struct{})
+		sched.Go(func() {
+			sched.RecvV(gate) // the work: a read that only ends when the caller closes the connection
+			usend(ret, 7)
+		})
+		if early {
+			sched.Go(func() { sched.CloseCh(gate) }) // ... or when the peer answers
+		}
+		t := vtime.NewTimer(time.Second)
+		res := ""
+		switch sched.Select(false, sched.R(ret), sched.R(t.C)) {
+		case 0:
+			res = fmt.Sprint("result ", <-ret)
+		case 1:
+			<-t.C
+			res = "timeout"
+		}
+		if !early {
+			sched.CloseCh(gate)
+		}
+		sched.WaitQuiescent()
+		sched.SetOutcome(fmt.Sprintf("%s left=%d", res, len(sched.LiveNonServer())))
+	}
+}
+
+// a select with default never waits for a sender that has not arrived, and takes the value of one that has
+func unbufSelectDefault() {
+	c := make(chan int)
+	sched.Go(func() { usend(c, 5) })
+	got := "none"
+	switch sched.Select(true, sched.R(c)) {
+	case 0:
+		got = fmt.Sprint(<-c)
+	}
+	if got == "none" {
+		got += fmt.Sprint("+", sched.RecvV(c))
+	}
+	sched.SetOutcome(got)
+}
+
+// closing an unbuffered channel releases a parked receiver
+func unbufClose() {
+	c := make(chan int)
+	sched.Go(func() { sched.CloseCh(c) })
+	_, ok := sched.Recv2(c)
+	sched.SetOutcome(fmt.Sprint(ok))
+}
+
 var lits = []lit{
+	{"unbuffered two-senders P=2", sched.Bounds{F: -1, P: 2}, 0, unbufTwoSenders, []string{"12 left=0", "21 left=0"}},
+	{"deadline-shape buffered, silent peer", sched.Bounds{F: -1, P: 2, Sel: 1}, 1, deadlineShape(1, false), []string{"timeout left=0"}},
+	{"deadline-shape unbuffered, silent peer", sched.Bounds{F: -1, P: 2, Sel: 1}, 1, deadlineShape(0, false), []string{"timeout left=1"}},
+	{"deadline-shape buffered, answering peer", sched.Bounds{F: -1, P: 2, Sel: 1}, 1, deadlineShape(1, true), []string{"result 7 left=0"}},
+	{"deadline-shape unbuffered, answering peer", sched.Bounds{F: -1, P: 2, Sel: 1}, 1, deadlineShape(0, true), []string{"result 7 left=0"}},
+	{"unbuffered select-default P=1", sched.Bounds{F: -1, P: 1}, 0, unbufSelectDefault, []string{"5", "none+5"}},
+	{"unbuffered close", sched.Bounds{F: -1, P: 1}, 0, unbufClose, []string{"false"}},
 	{"lost-update P=0", sched.Bounds{F: -1}, 0, lostUpdate, []string{"2"}},
 	{"lost-update P=1", sched.Bounds{F: -1, P: 1}, 0, lostUpdate, []string{"1", "2"}},
 	{"locked-update P=3", sched.Bounds{F: -1, P: 3}, 0, lockedUpdate, []string{"2"}},
